@@ -89,6 +89,24 @@ GEN[("C09", "thorough")] = [("basic", ["P:S", "R:S", "R:A", "P:A"], 4, 0, 2, 0),
 # C02 and C19 at the loop: what is down on the device (the fold of the writes that succeeded), with injected write failures
 GEN[("C02", "quick")] = [("basic", ["P:A", "R:A", "P:Z"], 3, 0, 0, 0), ("shiftchord", ["P:LEFTSHIFT", "P:A", "R:LEFTSHIFT"], 3, 1, 0, 0)]
 GEN[("C02", "thorough")] = [("basic", ["P:A", "R:A", "P:Z", "R:Z"], 4, 1, 0, 0), ("shiftchord", ["P:LEFTSHIFT", "P:A", "R:LEFTSHIFT", "R:A"], 4, 1, 0, 0), ("norep", ["P:LEFTSHIFT", "P:A", "R:A"], 3, 0, 0, 0)]
+# ... and bursts: a modifier goes down, eight keys are tapped, the modifier goes up - eighteen events in ONE arrival (whatever stops reading after 16 events
+# leaves the modifier's release unread and the modifier down on the device while nothing is physically held); seventeen keys tapped in one arrival
+SHIFT_BURST = ["P:LEFTSHIFT"] + [x for k in _MANY[:8] for x in ("P:" + k, "R:" + k)] + ["R:LEFTSHIFT"]
+GEN[("C02", "quick")] += [("passthru", ["R:1"], 1, 0, 0, 0, SHIFT_BURST), ("passthru", ["R:1"], 1, 0, 0, 0, SEVENTEEN_TAP)]
+GEN[("C02", "thorough")] += [("passthru", ["R:1"], 1, 0, 0, 0, SHIFT_BURST), ("passthru", ["R:1"], 1, 0, 0, 0, SEVENTEEN_TAP), ("shiftchord", ["R:1"], 1, 1, 0, 0, SHIFT_BURST)]
+# C03, C04, C05, C07, C08 at the device (see ALIAS, DELIVERY): the statements are about every key event of every history - "when a key goes down", "press -> press,
+# release -> release" - so an event the loop has been notified about and leaves unread, or a step whose output never reaches the device, breaks them for the user
+# whatever the mapper would have answered. Bursts, and a few short histories with every batching.
+GEN[("C05", "quick")] = [("passthru", ["R:1"], 1, 0, 0, 0, SHIFT_BURST), ("passthru", ["R:1"], 1, 0, 0, 0, SEVENTEEN_TAP), ("basic", ["P:Z", "R:Z", "P:A"], 3, 0, 0, 1)]
+GEN[("C05", "thorough")] = GEN[("C05", "quick")] + [("basic", ["P:Z", "R:Z", "P:A", "R:A"], 4, 1, 0, 1)]
+GEN[("C03", "quick")] = [("shiftchord", ["R:1"], 1, 0, 0, 0, SHIFT_BURST), ("shiftchord", ["P:LEFTSHIFT", "P:A", "R:LEFTSHIFT"], 3, 0, 0, 1)]
+GEN[("C03", "thorough")] = GEN[("C03", "quick")] + [("shiftchord", ["P:LEFTSHIFT", "P:A", "R:LEFTSHIFT", "R:A"], 4, 1, 0, 1)]
+GEN[("C04", "quick")] = GEN[("C03", "quick")]
+GEN[("C04", "thorough")] = GEN[("C03", "thorough")]
+GEN[("C07", "quick")] = [("norep", ["R:1"], 1, 0, 0, 0, SHIFT_BURST), ("norep", ["P:LEFTSHIFT", "P:A", "R:A"], 3, 0, 0, 1)]
+GEN[("C07", "thorough")] = GEN[("C07", "quick")] + [("norep", ["P:LEFTSHIFT", "P:A", "R:A", "P:S"], 4, 0, 0, 1)]
+GEN[("C08", "quick")] = [("absorb", ["R:1"], 1, 0, 0, 0, SHIFT_BURST), ("absorb", ["P:C", "P:A", "P:B"], 3, 0, 0, 1)]
+GEN[("C08", "thorough")] = GEN[("C08", "quick")] + [("absorb", ["P:C", "P:A", "P:B", "R:C"], 4, 0, 0, 1)]
 GEN[("C19", "quick")] = GEN[("C02", "quick")]
 GEN[("C19", "thorough")] = GEN[("C02", "thorough")]
 # C14 at the loop (see ALIAS): boundary repeat timings with timer expiries
@@ -111,12 +129,13 @@ SIM = {
     "C09": [],
     "C02": [],
     "C19": [],
+    "C03": [], "C04": [], "C05": [], "C07": [], "C08": [],
 }
 # properties whose loop-level runs include injected failures (what is down on the device after a write failure that the loop survives)
 FAULT_PROPS = ("C01", "C02", "C06", "C12", "C19")
 INVARIANTS = ["NoLostWakeup", "SendsAreMapperOutputs", "QuietInTabletMode", "HeldMatches", "ReleasedInTablet", "ChordsAreTransient", "StopsOnFailure", "EmitSchedule"]
 # registers of LoopTrace that must be non-zero for a run of the property to be non-vacuous
-NEED = {"C10": [4, 8], "C11": [3, 6], "C12": [5, 9, 10], "C20": [7], "C06": [5, 10], "C18": [4, 5], "C01": [4, 8], "C14": [4], "C09": [3, 6], "C02": [4, 7], "C19": [4, 7]}
+NEED = {"C03": [4, 8], "C04": [4, 8], "C05": [4, 8], "C07": [4, 8], "C08": [4, 8], "C10": [4, 8], "C11": [3, 6], "C12": [5, 9, 10], "C20": [7], "C06": [5, 10], "C18": [4, 5], "C01": [4, 8], "C14": [4], "C09": [3, 6], "C02": [4, 7], "C19": [4, 7]}
 REGS = ["traces", "drifts", "chords_judged", "step_sends_judged", "releaseall_sends_judged", "timed_polls_judged", "failing_calls_judged",
         "polls_with_unread_events_queued", "key_events_read_in_tablet_mode", "tablet_on_with_keys_held"]
 
@@ -444,12 +463,16 @@ def startup_runs(res, exe, wd, tier):
 
 # loop-level clauses that are ALSO what another property says, seen at the loop: C06 ("after the release-all operation used on tablet-mode
 # changes nothing is held ... answers as a newly created mapper ... no memory of ... repeat triggers survives")
-ALIAS = {# C09 at the loop ("a step asks the event loop to start repeating exactly when ... with exactly that mapping's repeat keys, delay and interval; every other
+# what reaches the device, event by event: an event the loop was notified about is left unread when it goes back to waiting; a step's output is not written, written
+# differently, or something is written that no step asked for
+DELIVERY = {"C10-poll-with-unread-events", "C10-send-missing-step", "C10-wrong-payload-step", "C10-unexpected-send"}
+ALIAS = {"C03": DELIVERY, "C04": DELIVERY, "C05": DELIVERY, "C07": DELIVERY, "C08": DELIVERY,
+         # C09 at the loop ("a step asks the event loop to start repeating exactly when ... with exactly that mapping's repeat keys, delay and interval; every other
          # key press or release that the mapper acts on cancels repeating; events it ignores leave the repeat state unchanged"): what the loop does with the
          # requests - a chord although the repeat was cancelled, no chord / no timer although one was requested, another chord or timing than the fired mapping's
          "C09": {"C11-chord-at-wrong-time", "C11-chord-missing", "C11-repeat-without-timer", "C11-repeat-not-as-listed-in-the-layout", "C11-timeout-off-schedule"},
          # C02 / C19 at the device (own prefixes; listed for the evidence)
-         "C02": {"C02-key-down-on-the-virtual-keyboard-while-waiting-without-justification"},
+         "C02": {"C02-key-down-on-the-virtual-keyboard-while-waiting-without-justification", "C10-poll-with-unread-events"},
          "C19": {"C19-redundant-event-written-to-the-device"},
          # C01 at the loop ("whenever no physical key is held, no key is held on the virtual keyboard"), judged each time the loop goes back to waiting
          "C01": {"C01-keys-held-while-waiting-although-every-key-was-released"},
